@@ -431,15 +431,18 @@ pub fn inject_fault(t: &mut Tape, prog: &mut Vec<MStmt>) -> Option<&'static str>
     let origs = idx_of(prog, &|k| matches!(k, MKind::Orig(_)));
     let ends = idx_of(prog, &|k| matches!(k, MKind::End));
     let fresh = |t: &mut Tape, prog: &Vec<MStmt>| -> String {
+        let base = gen_label_pool(t, 1).pop().unwrap();
+        let mut k = 0u32;
         loop {
-            let l = gen_label_pool(t, 1).pop().unwrap();
+            let l = if k == 0 { format!("{base}_q") } else { format!("{base}_q{k}") };
+            k += 1;
             let used = prog.iter().any(|s| {
                 s.labels.iter().any(|x| x.eq_ignore_ascii_case(&l))
                     || s.kind.label_operand().is_some_and(|x| x.eq_ignore_ascii_case(&l))
                     || matches!(&s.kind, MKind::External(x) if x.eq_ignore_ascii_case(&l))
             });
             if !used {
-                return format!("{l}_q");
+                return l;
             }
         }
     };
